@@ -8,7 +8,7 @@ and their thinned / altered variants, clue-free boards, circles on the last row 
 """
 
 from . import base
-from .slitherlink import enum_loops, vertex_edges, dirs_of, loop_count, all_loops, seed_loops, dense_family, uniq
+from .slitherlink import enum_loops, vertex_edges, dirs_of, loop_count, all_loops, seed_loops, dense_family, uniq, within_budget
 
 OPP = {"U": "D", "D": "U", "L": "R", "R": "L"}
 STEP = {"U": (-1, 0), "D": (1, 0), "L": (0, -1), "R": (0, 1)}
@@ -90,23 +90,26 @@ def _large_instances(h, w, thorough):
     far = (h - 1, w - 1)
     if enumerable:
         light = [{}, {far: 2}, {(h - 1, x): 1 for x in range(1, w - 1)} or {far: 1}, {(y, w - 1): 1 for y in range(1, h - 1)} or {far: 1}]
-        if thorough or h == w:
+        if thorough:
             light += [{far: 1}, {far: 2, (0, 0): 2}, {(h - 1, 0): 2, (0, w - 1): 2, (h - 1, w // 2): 1}, {(h - 1, w // 2): 2, (h // 2, w - 1): 2}]
         if thorough:
             light += [{(h - 1, x): 2 - x % 2 for x in range(w)}, {(y, w - 1): 1 + y % 2 for y in range(h)}]
         for clues in light if (thorough or h == w) else light[:3]:
             out.append(prob(clues))
-    if thorough:
-        seeds = seed_loops(h, w, 1 if enumerable else 2, longest=True)
+    if enumerable:
+        seeds = seed_loops(h, w, 1, longest=thorough)
     else:
-        seeds = seed_loops(h, w, 1)
+        # circles alone pin a loop down much less than slitherlink numbers do: of the first six seed loops take those with
+        # the most circles, and keep only the derived instances whose exact enumeration stays within a fixed node budget
+        seeds = sorted(seed_loops(h, w, 6), key=lambda g: -len(clues_of(h, w, g)[0]))[: 2 if thorough else 1]
     for g in seeds:
         full, blank = clues_of(h, w, g)
         fam = dense_family(full, h, w, lambda v, dl, c: 3 - v, thorough)
         if not thorough and h != w:
             fam = fam[:2] + fam[3:5]
         for clues in fam:
-            out.append(prob(clues))
+            if enumerable or within_budget(h, w, _checks(h, w, prob(clues)["problem"])):
+                out.append(prob(clues))
         # one circle too many: on a loop cell that satisfies neither condition, and on a cell off the loop
         extra = []
         if blank:
@@ -131,9 +134,9 @@ class Masyu(base.Rule):
     def shapes(self, tier):
         s = [(1, 1), (1, 2), (2, 1), (2, 2), (2, 3), (3, 2), (3, 3), (1, 3), (3, 1)]
         s = s + ([(3, 4), (4, 3)] if tier == "quick" else [(3, 4), (4, 3), (4, 4), (2, 5), (5, 2), (3, 5), (5, 3)])
-        large = [(5, 5), (6, 6), (8, 8), (4, 7), (7, 4), (3, 10), (10, 3), (2, 12), (12, 2), (1, 12), (12, 1)]
+        large = [(5, 5), (7, 7), (8, 8), (3, 10), (10, 3), (2, 12), (12, 2), (1, 12), (12, 1)]
         if tier != "quick":
-            large += [(5, 6), (6, 5), (7, 7), (10, 10), (6, 9), (9, 6), (4, 10), (10, 4), (3, 12), (12, 3), (2, 15), (15, 2)]
+            large += [(6, 6), (4, 7), (7, 4), (5, 6), (6, 5), (9, 9), (6, 8), (8, 6), (4, 10), (10, 4), (3, 12), (12, 3), (2, 15), (15, 2)]
         return s + [("large", h, w) for h, w in large]
 
     def instances(self, shape, cap):
